@@ -79,6 +79,9 @@ SLICES = {
                        MaxConns=2, Cleans={False}, ConnSEIs={10}, SPs={True, False}, MaxHeld=1, MaxUsed=1),
     "alias_srv": dict(Roles={"server"}, Vers={"v50"}, AppKinds={"publish"}, PeerKinds={"publish"}, QosSet={0}, Topics={"t1", "t2", ""},
                       Aliases={0, 1, 2}, ConnTAMs={NA, 0, 1}, AckTAMs={NA, 0, 2}, OptSets=[set(), {"auto_map"}], MaxConns=2, MaxHeld=0),
+    # three topics compete for two aliases: which alias is recycled depends on the least-recently-USED order
+    "alias_lru": dict(Vers={"v50"}, AppKinds={"publish"}, PeerKinds=set(), QosSet={0}, Topics={"t1", "t2", "t3", ""}, Aliases={0, 1, 2},
+                      AckTAMs={2}, OptSets=[{"auto_map"}, {"auto_replace"}, set()], MaxConns=1, MaxHeld=0),
     # an alias (re)bound by a QoS 2 retransmission that is not delivered again still counts
     "alias_dup": dict(Roles={"server"}, Vers={"v50"}, AppKinds=set(), PeerKinds={"publish"}, QosSet={0, 2}, InPids={1}, Topics={"t1", "t2", ""},
                       Aliases={0, 1}, AckTAMs={1}, OptSets=[{"auto_pub"}], MaxConns=2, Cleans={False}, ConnSEIs={10}, MaxHeld=0),
